@@ -8,8 +8,15 @@
           against the property over traces: every Reply answers exactly one earlier Call of that
           connection with the result of that call's own payload, no Call is answered twice, nothing
           answers a Post.  The runs include calls whose arguments and results have several hundred
-          KiB; payloads are written run-length compressed (zpay) and expanded here. *)
+          KiB; payloads are written run-length compressed (zpay) and expanded here.
+   dcase: one loss of a connection (part viii of the harness): the calls that goroutines of their
+          own issued before the loss / while the reader held its error / inside stream.Close() /
+          after it, each with what it ended with (0 nothing, 1 a result, 2 an error), compared with
+          what Teardown.v allows for that scenario under the order of the source (stream.Close()
+          first): the outcome without an answer, or the outcome when its answer arrives right
+          after the call was written. *)
 From QV Require Import Auth Call Facts.
+From QV Require Teardown.
 From Coq Require Import String.
 Local Open Scope N_scope.
 
@@ -26,8 +33,10 @@ Definition prefix_err (s : bytes) : bool := eqb_bytes (firstn 3 s) (bs "ERR").
 
 (* Hello(a) returns "re:" a "#" n, n = how often the body has run for a (1 when C04 holds);
    Ping(a) returns nothing; Nanoseconds() returns 42 *)
+(* service 4 (registered after the raw-frame part, hence not in `target`): the factory object and the
+   children it adds to its own service answer action 100 like Hello *)
 Definition fres (s o a : N) (p : bytes) : bytes :=
-  if pong s then
+  if pong s || (s =? 4) then
     (if a =? 100 then match arg_of p with Some x => enc_str (bs "re:" ++ x ++ bs "#1") | None => [] end else [])
   else le 8 42.
 Definition okargs (s o a : N) (p : bytes) : bool :=
@@ -122,5 +131,18 @@ Fixpoint bad_idx {A} (f : A -> bool) (l : list A) (i : nat) : list nat :=
   | x :: r => if f x then bad_idx f r (S i) else i :: bad_idx f r (S i)
   end.
 
-Definition mismatches (cf : cfg) (rs : list rcase) (ts : list tcase) : list nat * list nat :=
-  (bad_idx (rcase_ok cf) rs 0, bad_idx (tcase_ok cf) ts 0).
+(* ---- calls issued during the loss of the connection ---- *)
+Record dcase := { dc_local : bool;              (* the loss is a local EndPoint.Close() *)
+                  dc_calls : list (N * N) }.    (* phase 0..3, observed outcome 0/1/2 *)
+
+Fixpoint dcalls_ok (local : bool) (ps : list nat) (os : list N) (i : nat) : bool :=
+  match os with
+  | [] => true
+  | o :: r => existsb (Nat.eqb (N.to_nat o)) (Teardown.allowed true local ps i) && dcalls_ok local ps r (S i)
+  end.
+Definition dcase_ok (d : dcase) : bool :=
+  dcalls_ok (dc_local d) (map (fun c => N.to_nat (fst c)) (dc_calls d)) (map snd (dc_calls d)) 0.
+
+Definition mismatches (cf : cfg) (rs : list rcase) (ts : list tcase) (ds : list dcase)
+  : list nat * list nat * list nat :=
+  (bad_idx (rcase_ok cf) rs 0, bad_idx (tcase_ok cf) ts 0, bad_idx dcase_ok ds 0).
